@@ -42,7 +42,8 @@ def str_const(s: str):
     if _USE_Z3_STRINGS:
         return z3.StringVal(s)
     if s not in _str_consts:
-        _str_consts[s] = z3.Const("str!" + repr(s), StrSort())
+        safe = "".join(ch if ch.isalnum() else "_" for ch in s)[:24]
+        _str_consts[s] = z3.Const(f"strlit{len(_str_consts)}_{safe}", StrSort())
     return _str_consts[s]
 
 
